@@ -1,3 +1,64 @@
+/-
+  Props/C03.lean — Inbound decoding is faithful, chunking-invariant and robust to hostile bytes.
+  Property theorems only.
+-/
 import GV.Model.Decode
+import GV.Spec.Tables
+import GV.Proofs.Decoder
+import GV.Proofs.Vli
 namespace GV.Props.C03
+open GV
+
+/-- Chunking invariance: for every decoder state, every byte stream and every way of splitting it
+    into reads (empty reads, 1-byte reads, splits inside the length prefix included), the decoded
+    packets, the verdict and the resulting decoder state equal those of the unsplit stream. -/
+theorem chunk_invariant (cfg : DecodeCfg) (d : Decoder) (chunks : List Bytes) :
+    feedChunksB cfg d chunks = feed cfg d chunks.flatten :=
+  feedChunks_eq_feed_flatten cfg d chunks
+
+/-- Two partitions of the same stream cannot be told apart. -/
+theorem chunkings_agree (cfg : DecodeCfg) (d : Decoder) (c₁ c₂ : List Bytes) (h : c₁.flatten = c₂.flatten) :
+    feedChunksB cfg d c₁ = feedChunksB cfg d c₂ := by
+  rw [chunk_invariant, chunk_invariant, h]
+
+/-- Feeding is an action of the byte-string monoid. -/
+theorem feed_append_law (cfg : DecodeCfg) (d : Decoder) (a b : Bytes) :
+    feed cfg d (a ++ b) = (feed cfg d a).andThen (fun d' => feed cfg d' b) :=
+  feed_append cfg d a b
+
+/-- Once failed, always failed: a terminal decoder rejects every further byte. -/
+theorem terminal_absorbs (cfg : DecodeCfg) (d : Decoder) (b : UInt8) (h : d.state = .terminal) :
+    stepByte cfg d b = (d, [], some .decodingFailure) :=
+  stepByte_terminal cfg d b h
+
+/-- Early rejection: the byte that completes a Remaining Length announcing more than the maximum
+    packet size in force makes the decoder fail at once; no body byte is ever buffered. -/
+theorem early_reject (cfg : DecodeCfg) (d : Decoder) (b : UInt8) (rl : Nat) (rest : Bytes)
+    (hs : d.state = .readLength) (hv : decodeVli (d.scratch ++ [b]) = .value rl rest)
+    (hbig : ¬ rl + 1 + (d.scratch ++ [b]).length ≤ cfg.limit) :
+    (stepByte cfg d b).2.2 = some .decodingFailure ∧ (stepByte cfg d b).1.state = .terminal ∧
+    (stepByte cfg d b).2.1 = [] := by
+  simp only [stepByte, hs, hv]
+  rw [if_neg hbig]
+  exact ⟨rfl, rfl, rfl⟩
+
+/-- The reason-code tables the decoder accepts are exactly the standard's, packet by packet. -/
+theorem tables_match_standard :
+    connectCodes = Spec.connackCodes ∧ pubackCodes = Spec.pubackCodes ∧ pubrecCodes = Spec.pubrecCodes ∧
+    pubrelCodes = Spec.pubrelCodes ∧ pubcompCodes = Spec.pubcompCodes ∧ subackCodes = Spec.subackCodes ∧
+    unsubackCodes = Spec.unsubackCodes ∧ disconnectCodes = Spec.disconnectCodes ∧ authCodes = Spec.authCodes ∧
+    suback311Codes = Spec.suback311Codes ∧ connect311Map.map (·.1) = Spec.connack311Codes := by
+  decide
+
+/-- Length prefixes written by a conformant peer are read back exactly, whatever follows. -/
+theorem length_prefix_round_trip (v : Nat) (rest : Bytes) (h : v ≤ maxVli) :
+    decodeVli (Spec.encVbi v ++ rest) = .value v rest :=
+  decodeVli_encVbi v rest h
+
+/-- Non-vacuity: a PUBACK and a SUBACK split in the middle of the length prefix and of the body. -/
+example :
+    (feedChunksB { version := .v5, maxSize := 0 } {} [[0x40], [0x02, 0x00], [0x05, 0x90, 0x04], [0x00, 0x07, 0x00], [0x01]]).packets
+      = [.puback { packetId := 5 }, .suback { packetId := 7, reasonCodes := [1] }] := by
+  decide
+
 end GV.Props.C03
